@@ -25,6 +25,8 @@ CHECKS = {
              note="trusted: arithmetic of Target::from_compact and CompactTarget::from_next_work_required (uninterpreted in the symbolic part, exact python big-int versions in the concrete part), SHA-256d; walk-back depth bounded by the 12-header window; Signet not covered; the canister-side HeaderStore (ValidationContext) is part of C10"),
  'C19': dict(text="symbolic execution of the send_transaction coroutine (driven through its compiled poll function) with flags, both networks, payload length, fee table, attached cycles, decoder outcome and block-source reply (immediate, after a suspension, reject) symbolic or enumerated: forwarded iff counted iff gate open and payload is exactly one transaction; refusals trap before any effect; MalformedTransaction has no effect; cycles = base + per_byte*len",
              note="trusted: the dependency decoder is a stub with the contract of the function actually called (consensus_decode may leave bytes unread, deserialize may not); native witnesses (valid, valid+trailing byte, garbage, truncated, flag/network refusals) are run through the real endpoint"),
+ 'C13': dict(text="symbolic execution of the compiled heartbeat / maybe_fetch_blocks state machines (poll functions), the guard, the request builder, the response bookkeeping and maybe_process_response over every schedule of up to 8/10 events (start a heartbeat / deliver a reply to a suspended one, two overlapping), reply kinds chosen at delivery, the announced number of follow-ups a symbolic u8: one request outstanding, follow-ups 0,1,2.., reassembly = concatenation, clean state after reject, no blob processed twice, no trap, progress with a well-behaved source",
+             note="trusted: get_successors transport and candid (stub future that suspends once); block decoding and insert_block are recorders (C10); upgrades while a request is in flight are outside; reply scripts are also run through the real heartbeat of the host build"),
 }
 NA = {
 }
